@@ -195,8 +195,29 @@ def run_impl(case_lines, root, per_line_timeout=10.0):
 # ---------------------------------------------------------------------------------------------
 # answer parsing and comparison
 
+def split_spec(line):
+    """split a model RUN answer into the flat-model part and the `spec=1` part:
+    returns (main_line, {'struct': 'yes'|'no', 'wf': ..., 'line': 'out=.. status=..' or None})"""
+    if " struct=" not in line:
+        return line, None
+    main, rest = line.split(" struct=", 1)
+    d = {"struct": rest.split(" ", 1)[0], "wf": None, "line": None}
+    m = re.search(r" wf=(yes|no)$", rest)
+    if m:
+        d["wf"] = m.group(1)
+        rest = rest[:m.start()]
+    m = re.search(r"specout=(\S+) specstatus=(.*)$", rest)
+    if m:
+        d["line"] = f"out={m.group(1)} status={m.group(2)}"
+    return main, d
+
+
+SPEC_STATS = {"requests": 0, "structured": 0, "unstructured": 0, "spec_vs_impl_compared": 0, "spec_vs_model_compared": 0, "wf_no": 0}
+
+
 class RunAns:
     def __init__(self, line):
+        line = split_spec(line)[0]
         self.raw = line
         self.out = None
         self.status = None
@@ -397,6 +418,28 @@ def run_cases(cases, root):
             d = cmp(ma[j], ia[j])
             if d:
                 problems.append(("model-vs-impl", f"request {j} ({ln.split(' ')[0]}): {d}"))
+            if ln.startswith("RUN ") and " spec=1" in ln:
+                main, sp = split_spec(ma[j])
+                SPEC_STATS["requests"] += 1
+                if sp is not None:
+                    if sp["wf"] == "no":
+                        SPEC_STATS["wf_no"] += 1
+                        problems.append(("spec-vs-model", f"request {j}: parser returned a program that is not progWF (contradicts parse_wf)"))
+                    if sp["struct"] == "yes" and sp["line"]:
+                        SPEC_STATS["structured"] += 1
+                        # the structured semantics against the implementation (same comparator as the flat model)
+                        d2 = cmp(sp["line"], ia[j])
+                        SPEC_STATS["spec_vs_impl_compared"] += 1
+                        if d2 and RunAns(sp["line"]).kind != "fuel":
+                            problems.append(("spec-vs-impl", f"request {j}: structured semantics vs implementation: {d2}"))
+                        # … and against the flat model (the refinement theorem, collection-free runs)
+                        if " gc=never" in ln:
+                            a, b = RunAns(sp["line"]), RunAns(main)
+                            SPEC_STATS["spec_vs_model_compared"] += 1
+                            if a.kind != "fuel" and b.kind != "fuel" and (a.out, a.status) != (b.out, b.status):
+                                problems.append(("spec-vs-model", f"request {j}: structured semantics {sp['line'][:200]} vs flat model {main[:200]} (contradicts run_refines)"))
+                    elif sp["struct"] == "no":
+                        SPEC_STATS["unstructured"] += 1
         if c.oracle:
             for d in c.oracle(c, ia, ma) or []:
                 problems.append(("impl-vs-oracle", d))
